@@ -15,28 +15,19 @@ Open Scope Z_scope.
 Definition through_hooks (m : tmode) : bool :=
   match m with FallOff | SysExit _ | Uncaught | KbdInterrupt => true | _ => false end.
 
-Theorem C18_decision_correct : forall autoprove m, through_hooks m = true -> prove_runs autoprove m = spec autoprove m.
-Proof.
-  intros ap m H. destruct m as [|a|a|a| | |k]; try discriminate H; unfold prove_runs, spec, hook_calls_final; cbn;
-    try (destruct ap; reflexivity).
-  destruct a as [| k | | |]; cbn; destruct ap; cbn; try reflexivity.
-  (* sys.exit(k): recorded code k = 0  <->  status (k mod 256) = 0 only for k = 0 or multiples of 256 *)
-  all: destruct (Z.eqb_spec k 0) as [->|Hk]; cbn; try reflexivity.
-Abort.
-
 (* the status of sys.exit(k) is k mod 256: sys.exit(256) ends with status 0 but is recorded as a failure (no artefacts): the safe direction *)
 Theorem C18_never_proves_after_a_failure : forall autoprove m, through_hooks m = true -> prove_runs autoprove m = true -> status m = 0 /\ autoprove = true.
 Proof.
   intros ap m H P. unfold prove_runs, hook_calls_final in P. apply andb_prop in P. destruct P as [P A].
   destruct m as [|a|a|a| | |k]; try discriminate H; cbn in *; try (split; [reflexivity|exact A]); try discriminate P.
-  destruct a as [| k | | |]; cbn in *; try discriminate P; try (split; [reflexivity|exact A]).
+  destruct a as [| k | | | | |]; cbn in *; try discriminate P; try (split; [reflexivity|exact A]).
   rewrite andb_true_r in P. apply Z.eqb_eq in P. subst k. split; [reflexivity|exact A].
 Qed.
 Theorem C18_proves_after_success : forall m, through_hooks m = true -> status m = 0 ->
   (forall k, m = SysExit (AInt k) -> k = 0) -> prove_runs true m = true.
 Proof.
   intros m H S K. destruct m as [|a|a|a| | |k]; try discriminate H; cbn in *; try reflexivity; try discriminate S.
-  destruct a as [| k | | |]; cbn in *; try reflexivity; try discriminate S. rewrite (K k eq_refl). reflexivity.
+  destruct a as [| k | | | | |]; cbn in *; try reflexivity; try discriminate S. rewrite (K k eq_refl). reflexivity.
 Qed.
 Theorem C18_autoprove_off : forall m, prove_runs false m = false.
 Proof. intros m. unfold prove_runs. apply andb_false_r. Qed.
@@ -45,5 +36,40 @@ Proof. exists (RaiseSystemExit (AInt 1)). split; [discriminate|reflexivity]. Qed
 Theorem C18_builtin_exit_refuted : exists m, status m <> 0 /\ prove_runs true m = true.
 Proof. exists (BuiltinExit (AInt 3)). split; [discriminate|reflexivity]. Qed.
 
+
+(* ---- all histories of swallowed sys.exit calls followed by any way of terminating through the hooks ---- *)
+Theorem C18_history_never_proves_after_a_failure : forall autoprove h,
+  through_hooks (final h) = true -> h_prove_runs autoprove h = true -> h_status h = 0 /\ autoprove = true.
+Proof.
+  intros ap [cs m] H P. unfold h_prove_runs, h_hook_calls_final, h_recorded, h_status in *. cbn [final caught] in *.
+  apply andb_prop in P. destruct P as [P A]. split; [|exact A].
+  destruct m as [|a|a|a| | |k]; try discriminate H; cbn in *; try reflexivity.
+  - destruct a as [| k | | | | |]; cbn in *; try discriminate P; try reflexivity.
+    rewrite andb_true_r in P. apply Z.eqb_eq in P. subst k. reflexivity.
+  - rewrite andb_false_r in P. discriminate P.
+  - rewrite andb_false_r in P. discriminate P.
+Qed.
+(* an uncaught exception is never followed by a proof, whatever sys.exit calls were swallowed before it (e.g. sys.exit(0) inside
+   a try whose finally block raises) *)
+Theorem C18_history_uncaught_never_proves : forall autoprove cs, h_prove_runs autoprove (R cs Uncaught) = false /\ h_prove_runs autoprove (R cs KbdInterrupt) = false.
+Proof. intros ap cs. unfold h_prove_runs, h_hook_calls_final, h_recorded. cbn. rewrite !andb_false_r. split; reflexivity. Qed.
+(* a script that swallowed only successful exits and then ends successfully is proved *)
+Theorem C18_history_proves_after_success : forall cs m, through_hooks m = true -> status m = 0 ->
+  (forall k, m = SysExit (AInt k) -> k = 0) -> Forall (fun a => code_ok (RCode a) = true) cs -> h_prove_runs true (R cs m) = true.
+Proof.
+  intros cs m H S K F. unfold h_prove_runs, h_hook_calls_final, h_recorded. cbn [final caught].
+  assert (L : code_ok (match rev cs with a :: _ => RCode a | [] => RNotCalled end) = true).
+  { destruct (rev cs) as [|a l] eqn:E; [reflexivity|]. rewrite Forall_forall in F. apply F. apply in_rev. rewrite E. left. reflexivity. }
+  destruct m as [|a|a|a| | |k]; try discriminate H; cbn in *; try discriminate S; rewrite ?L; try reflexivity.
+  destruct a as [| k | | | | |]; cbn in *; try reflexivity; try discriminate S. rewrite (K k eq_refl). reflexivity.
+Qed.
+Example C18_history_example :
+  h_prove_runs true (R [AInt 0] Uncaught) = false /\ h_prove_runs true (R [AInt 0] FallOff) = true /\
+  h_prove_runs true (R [] (SysExit AEmptyStr)) = false /\ h_status (R [] (SysExit AEmptyStr)) = 1.
+Proof. repeat split; reflexivity. Qed.
+
 Print Assumptions C18_never_proves_after_a_failure.
+Print Assumptions C18_history_never_proves_after_a_failure.
+Print Assumptions C18_history_uncaught_never_proves.
+Print Assumptions C18_history_proves_after_success.
 Print Assumptions C18_proves_after_success.
